@@ -1,2 +1,31 @@
-(* C13 (theorems added as proved). *)
-From VF Require Import Base.Prelude.
+(* C13 — Each received datagram is accounted for and published at most once.
+   Over ALL schedules of the pipeline model: the received counter equals the number of datagrams taken
+   off the socket; every datagram is in at most one place (queued, being processed, done); at most one
+   message per datagram, and only for received datagrams; decoded counter never exceeds processed. *)
+From VF Require Import Base.Prelude Model.Pipeline Proofs.PipelineProofs.
+
+Theorem C13_accounting : forall (C P : Type) (process : C -> nat -> C * option P * bool) n c s,
+  reachable C P process (init C P n c) s ->
+  udp_count s = recvd s /\
+  NoDup (live C P s) /\ (forall i, In i (live C P s) -> (i < recvd s)%nat) /\
+  NoDup (map fst (mq s)) /\ incl (map fst (mq s)) (done s) /\
+  (dec_count s <= length (done s))%nat.
+Proof.
+  intros C P process n c s Hr.
+  destruct (reachable_inv C P process n c s Hr) as [_ (H1 & H2 & H3 & H4 & H5 & H6 & _)]. repeat split; assumption.
+Qed.
+Print Assumptions C13_accounting.
+
+(* non-vacuity: a concrete schedule in which the worker's buffer is recycled for the next datagram *)
+Example C13_schedule :
+  let process := fun (c : nat) (i : nat) => (c, Some (i * 10)%nat, true) in
+  exists s, reachable nat nat process (init nat nat 1 0%nat) s /\ map snd (mq s) = [0%nat] /\ udp_count s = 1%nat /\ dec_count s = 1%nat.
+Proof.
+  cbn zeta. eexists. split.
+  - eapply RS; [eapply RS; [eapply RS; [eapply RS; [apply R0|] |] |] |].
+    + eapply (SPut _ _ _ _ 0%nat 0%nat). reflexivity.
+    + eapply (SRecv _ _ _ _ 0%nat). left. reflexivity.
+    + eapply (SGet _ _ _ _ 0%nat 0%nat 0%nat []); reflexivity.
+    + eapply (SProc _ _ _ _ 0%nat 0%nat 0%nat); reflexivity.
+  - cbn. repeat split.
+Qed.
